@@ -39,7 +39,8 @@ def session_survives(msgs, pname='v2'):
                 proto.data_received(bytes(m) + b'\n')
                 await asyncio.sleep(0.05)
             n0 = len(ft.written)
-            probe = b'{"jsonrpc":"2.0","method":"ping","id":4242}' if pname != 'v1' else b'{"method":"ping","params":[],"id":4242}'
+            # valid under every protocol class (auto-detection may have settled on any of them)
+            probe = b'{"jsonrpc":"2.0","method":"ping","params":[],"id":4242}' if pname != 'v1' else b'{"method":"ping","params":[],"id":4242}'
             proto.data_received(probe + b'\n')
             await asyncio.sleep(1.0)
             answered = any(isinstance(x, dict) and x.get('id') == 4242 and x.get('result') == 'pong'
@@ -86,8 +87,22 @@ class C05(Prop):
             ops = []
             for _ in range(rng.randrange(0, 4)):
                 ops.append(['send_request', 'm', []])
+            nreq = len(ops)
             if p != 'v1' and rng.random() < 0.5:
                 ops.append(['send_batch', [['c', [], True], ['d', [], rng.random() < 0.5], ['e', [], True]]])
+            if nreq and rng.random() < 0.3:
+                # a caller gives up, then a late response for its id arrives (result / error / malformed)
+                j = rng.randrange(nreq)
+                ops.append(['abandon', j])
+                late = rng.choice([{'result': 7}, {'error': {'code': 5, 'message': 'late'}}, {}, {'result': 1, 'error': {'code': 1, 'message': 'x'}},
+                                   {'error': 'boom'}])
+                d = dict(late, id=j)
+                if p != 'v1':
+                    d['jsonrpc'] = '2.0'
+                elif 'result' not in d or 'error' not in d:
+                    d.setdefault('result', None)
+                    d.setdefault('error', None)
+                ops.append(['receive', list(json.dumps(d).encode())])
             for _ in range(rng.randrange(1, 4)):
                 r = rng.random()
                 if r < 0.3:
